@@ -377,6 +377,15 @@ def gen_negative_size(gs, w):
 
 def gen_offset_nobuf(gs, w):
     rng = gs.rng
+    if rng.random() < 0.35:
+        # a stand-alone union reference built from an existing member object, at an offset, with neither
+        # buffer nor context (the member's own buffer must not be taken for the caller's)
+        urefs = [t for t, ty in enumerate(w.schema) if ty["k"] == "uref"]
+        rng.shuffle(urefs)
+        for ut in urefs:
+            mem = [x for mt in w.schema[ut]["members"] for x in w.live_objs(mt)]
+            if mem:
+                return {"type": ut, "value": None, "union_of": rng.choice(mem).k, "offset": rng.choice([0, 8, 16, 40]), "ctx": None}
     tops = [t for t in gs.top_types(w) if w.schema[t]["k"] != "str"]
     if not tops:
         return None
@@ -458,7 +467,10 @@ def run(step):
                 raise Skip()
             cls = w.classes[t]
             mat = M.Materialiser(w.schema, w.classes, w.objs, None)
-            py, _ = mat.mat(t, op["value"])
+            if op.get("union_of") is not None:
+                py = step.get_obj(op["union_of"]).handle()
+            else:
+                py, _ = mat.mat(t, op["value"])
             feat = typegen.features(w.schema, t)
             if kind == "ctx_mismatch":
                 if op["buf"] >= len(w.bufs):
